@@ -54,7 +54,7 @@ CLI = {
          "Label->set maps incl. empty, full, beyond-unit and result sets, on aeon / bnet / sbml inputs, k = 0..2, fresh paths and paths holding an older larger archive; reloaded sets, entry list, formula list and model judged by TLC."),
  "C19": ("input/output relation of the converter in TLA+ (Converter.Related) evaluated by TLC on recorded runs of the binary (Trace_Conv); the Shannon-expansion algorithm model-checked against completeness for arity 0..3 (MC_Converter)",
          "For each target TLC enumerates every valuation of the fresh constants and compares the set of truth tables with the set of instantiations of the input function; inputs stay inputs, no other targets, no crash."),
- "C17": ("state machine of one tool run in TLA+ (Cli.tla), model-checked over a small input space (MC_Cli: InOrder, FailQuiet, Complete, termination); path-wise trace validation by TLC of the binary's stdout lines, exit status and -o archive against it (Trace_Cli.tla), reference sets from the library API",
+ "C17": ("state machine of one tool run in TLA+ (Cli.tla), model-checked over a small input space (MC_Cli: InOrder, FailQuiet, FailKeepsOld, Replaced, Complete, termination, refinement of the control skeleton CliMachine.tla whose safety properties are proved with TLAPS for every number of formulae); path-wise trace validation by TLC of the binary's stdout lines, exit status and -o archive against it (Trace_Cli.tla), reference sets from the library API",
          "Every recorded run is an independent behaviour: the machine runs, the recorded lines are consumed against its output; order, texts, the three counts, exhaustive state lists, archived sets, and message-not-crash for failure scenarios."),
 }
 checks = []
